@@ -3,7 +3,7 @@ import re
 
 import facts
 from astlib import calls, find_fn, fns_in_file, last, method_calls, render, site, strip, walk
-from pathcond import conditions_to, enumerate_paths, fact_str, facts_str, find_path
+from pathcond import conditions_to, enumerate_paths, fact_str, facts_str, find_path, let_env
 import reportflow
 import a10
 import c03
@@ -450,6 +450,10 @@ def rule_duplicate_label(ctx, R="C02.13"):
             ctx.missing(R, "%s/one-primary-label" % fname, "add_primary x%d" % len(prim))
             continue
         a0, a1 = strip(prim[0]["args"][0]), strip(prim[0]["args"][1])
+        le_ = let_env(fn["body"], prim[0])
+        for _ in range(3):
+            if a0["k"] == "Path" and a0["path"] in le_:
+                a0 = strip(le_[a0["path"]])
         # the file id: a parameter of the function or the variable of the loop over (file id, definitions)
         params = [i["pat"]["name"] for i in fn["sig"]["inputs"] if not i.get("self") and i["pat"]["k"] == "PIdent"]
         loop_ids = set()
